@@ -3,6 +3,9 @@
 correspondence: every AlignmentMill method + blockwise_expand/contract against the Lean model
 (Model/Mill.lean, run exactly at K = Rat on the very doubles the implementation received);
 oracle: analytic pair energies / a pair vector field in numpy floats (independent of the model).
+source tie: c13_src.py / c13_src_blockwise.py (TRANSLATORS) re-read align.py and np_blockwise.py with `ast` on every run into
+lean/QcelVerif/Gen/MillSrc.lean (ASTs of Model/MillAst.lean); Props/C13Src.lean proves their evaluation equal to the hand model;
+every case line goes through the driver twice (hand model, and `src|` = source-derived) - three-way with the implementation.
 
 Two kinds of streams:
   * single-call scenarios ("mill", "blk"): one recipe, one system, every method once, judged at once;
@@ -19,11 +22,15 @@ from fractions import Fraction
 
 import numpy as np
 
+import c13_src
 from common import Ctx, Finding, Outcome, err_class
 
 PROPERTY = "C13"
-LEAN_TARGETS = ["QcelVerif.Props.C13", "QcelVerif.Lemmas.MillCalculus", "QcelVerif.Props.C13Calculus", "QcelVerif.Driver.C13"]
+LEAN_TARGETS = ["QcelVerif.Props.C13", "QcelVerif.Lemmas.MillCalculus", "QcelVerif.Props.C13Calculus",
+                "QcelVerif.Model.MillAst", "QcelVerif.Gen.MillSrc", "QcelVerif.Model.MillSrc", "QcelVerif.Props.C13Src", "QcelVerif.Driver.C13"]
 DRIVER = "QcelVerif/Driver/C13.lean"
+# regenerates lean/QcelVerif/Gen/MillSrc.lean from qcelemental/models/align.py and qcelemental/util/np_blockwise.py on every run
+TRANSLATORS = [c13_src.gen_mill_src]
 THEOREMS = [
     ("QcelVerif.Mill.blockwise_roundtrip", "blockwise_contract (blockwise_expand a) = a for every 2-D array and every dividing block shape"),
     ("QcelVerif.Mill.blockwise_roundtrip'", "blockwise_expand (blockwise_contract b) = b (the two reorderings are mutually inverse)"),
@@ -61,10 +68,30 @@ THEOREMS = [
     ("QcelVerif.Mill.vector_gradient_covariance", "mirror off: ANY vector fields with mu'(align y) = align_vector(mu(y)) near x and mu' differentiable at align x: (3,3n) array of d mu'(align x) = align_vector_gradient(array of d mu(x))"),
     ("QcelVerif.Mill.grad_energy_eq_gradE", "the Frechet gradient array of the polynomial pair energy (symmetric couplings) over R IS the explicit gradE of Props/C13 (ties grad to an explicit formula)"),
     ("QcelVerif.Mill.hess_energy_eq_hessE", "the Frechet Hessian array of the polynomial pair energy (symmetric couplings) over R IS the explicit hessE of Props/C13"),
+    # --- the source tie (Props/C13Src.lean): Gen/MillSrc.lean is regenerated from align.py / np_blockwise.py on every run; all n, m, recipes, inputs ---
+    ("QcelVerif.Mill.src_align_coordinates", "the AST read from align_coordinates evaluates to the hand model: alignCoords for reverse=False, alignCoordsRev for reverse=True (every n, m, recipe, geometry, scalar type)"),
+    ("QcelVerif.Mill.src_align_atoms", "the AST read from align_atoms evaluates to alignAtoms (ats[atommap])"),
+    ("QcelVerif.Mill.src_align_vector", "the AST read from align_vector evaluates to alignVector (vec.dot(rotation), mirror not consulted)"),
+    ("QcelVerif.Mill.src_align_gradient", "the AST read from align_gradient evaluates to alignGradient (mirror, rotate, permute)"),
+    ("QcelVerif.Mill.src_align_hessian", "the AST read from align_hessian (blockwise_expand, frame with the mirror branch, double loop over 3x3 blocks, np.ix_, blockwise_contract) evaluates to alignHessian, mirror on and off"),
+    ("QcelVerif.Mill.src_align_vector_gradient", "the AST read from align_vector_gradient (loop over atoms, scratch 3x3 filled from the three rows, R^T D R, segments written back) evaluates to alignVectorGradient"),
+    ("QcelVerif.Mill.src_align_system", "align_system as read from the source has 5 positional arguments and returns (align_coordinates(geom, reverse=reverse), align_atoms(mass), align_atoms(elem), align_atoms(elez), align_atoms(uniq)) of the hand model"),
+    ("QcelVerif.Mill.src_align_mini_system", "align_mini_system as read from the source returns (align_coordinates(geom, reverse=reverse), align_atoms(uniq)) of the hand model"),
+    ("QcelVerif.Mill.src_method_names", "the translator read exactly the eight align_* methods, in source order"),
+    ("QcelVerif.Mill.src_blockwise_expand", "blockwise_expand as read from the source (as_strided shape/strides evaluated on the memory of a C-contiguous array): view entry [i,j,p,q] exists and equals the model's blockwiseExpand, every block shape and count"),
+    ("QcelVerif.Mill.src_blockwise_expand_asserts", "both asserts of blockwise_expand (C-contiguity, block shape divides) are present in the source"),
+    ("QcelVerif.Mill.src_blockwise_contract_partial", "PARTIAL (non-empty arrays; on an empty array numpy raises and the tie to the hand model is false): blockwise_contract as read from the source (reshape, reshape with inferred -1, swapaxes(1,2), reshape on C-ordered memory): result has shape (gr*lr, gc*lc) and entry [r,c] equals the model's blockwiseContract, all sizes gr, lr, lc > 0"),
+    ("QcelVerif.Mill.src_blockwise_roundtrip_partial", "PARTIAL (non-empty arrays): source-derived blockwise_contract of whatever is read out of the source-derived blockwise_expand view of a has the shape and the entries of a (blocking is lossless for the functions read from the source)"),
+    ("QcelVerif.Mill.src_pairing_preserved", "headline over the source-derived align_gradient: R R^T = I, atommap bijective -> <J d, Src.align_gradient g> = <d, g>"),
+    ("QcelVerif.Mill.src_hessian_form_preserved", "headline over the source-derived align_hessian: (J d)^T Src.align_hessian(H) (J e) = d^T H e, mirror on and off"),
+    ("QcelVerif.Mill.src_energy_covariance", "headline over the source-derived functions: polynomial pair energy, grad and Hess at Src.align_coordinates(x) = Src.align_gradient / Src.align_hessian of those at x, all recipes incl. mirror"),
+    ("QcelVerif.Mill.src_atoms_same_map", "source-derived align_atoms(a)[i] = a[map i]"),
+    ("QcelVerif.Mill.src_gradient_hessian_covariance", "over R, headline over the source-derived functions: ANY E, E' with E'(Src.align y) = E(y) near x, E' twice differentiable at the aligned geometry -> gradient and Hessian arrays there = Src.align_gradient / Src.align_hessian of those at x, mirror on and off"),
+    ("QcelVerif.Mill.src_vector_gradient_covariance", "over R, mirror off, headline over the source-derived functions: nuclear derivatives of every equivariant vector field transform by Src.align_vector_gradient"),
 ]
 TRUSTED_BASE = [
     "Lean 4.33 kernel; axioms per theorem audited on every run (subset of propext, Classical.choice, Quot.sound); Mathlib for Finset sums / ring / linear_combination",
-    "hand-written model Model/Mill.lean of align.py:70-151 and np_blockwise.py (index-level semantics of numpy dot, fancy indexing, np.ix_, strided view, reshape/swapaxes), tied by differential correspondence",
+    "Model/Mill.lean (hand model of align.py:70-170 and np_blockwise.py) is NO LONGER tied by sampling only: harness/c13_src.py + c13_src_blockwise.py re-read the eight align_* method bodies and the two blockwise helpers with Python's ast on every run, regenerate Gen/MillSrc.lean, and Props/C13Src.lean proves the evaluation of every regenerated AST equal to the hand model for all sizes, recipes and inputs. What remains trusted about the tie: (a) the translators themselves (statement-by-statement symbolic execution: substitution of straight-line assignments, if/else on self.mirror / reverse merged into a conditional value, np.copy/np.asarray/np.array as identity on values, the two loop shapes read as tabulations after checking that every entry is assigned exactly once and that no scratch value is carried between iterations; anything else raises Unsupported) and the declared shapes of the method arguments ((n,3), (3,), (3n,3n), three (3n,) rows, (n,)); (b) the evaluator Model/MillAst.lean, i.e. the index-level numpy meaning given to each AST constructor (dot, .T, broadcasting of a (3,) vector over rows, x[:,c] *= s, fancy indexing incl. np.ix_, np.diag, zeros_like, as_strided on C-contiguous memory with strides in items, reshape incl. one inferred -1, swapaxes(1,2)); (c) that names resolve as written (np is numpy, blockwise_expand/contract are the functions of util/np_blockwise.py, self.* are the recipe fields) - in particular the two helper calls inside align_hessian are AST constructors whose meaning is the model's blockwiseExpand / blockwiseContract, which are separately proved equal to the helpers read from np_blockwise.py (src_blockwise_expand, src_blockwise_contract_partial); the composition is by name, not by a single evaluator. (b) and (c) are what the three-way differential run (implementation / hand model / source-derived, every case line) still samples",
     "numpy elementwise IEEE arithmetic (implementation float output compared with the exact rational model output at 1e-11 * scale; exactly for dyadic recipes)",
     "Mathlib's real analysis (Frechet derivative HasFDerivAt/fderiv, chain rule, ContDiffAt, Real.sqrt) for Props/C13Calculus.lean: the step from the algebra to 'gradient/Hessian covariance for EVERY invariant energy' is now PROVED over R (gradient_covariance, hessian_covariance, vector_gradient_covariance) and is no longer in the trusted base; what 'gradient' and 'Hessian' mean there is fixed by the definitions grad/hess/vecGrad (fderiv applied to the unit vectors e_(i,a), rows 3i+a) in Lemmas/MillCalculus.lean, which are tied to explicit formulas for the polynomial family (grad_energy_eq_gradE, hess_energy_eq_hessE)",
     "reading of 'invariant energy' (stated in Props/C13Calculus.lean): the aligned, relabelled system has its own energy E' (per-atom parameters permuted by the atom map) with E'(align y) = E(y) near x; proved to hold for every function of the interatomic distances and every pair potential (Coulomb, harmonic), an assumption for other energies; the theorems are over the real numbers whereas the implementation computes in IEEE doubles (numerical agreement is the oracle's job, not the theorems')",
@@ -78,7 +105,8 @@ ASSUMPTIONS = [
     "reverse=True coordinate transform: modelled, tied, proved an isometry; the property makes no covariance claim about it (in call sequences it is only required to be a function of its input values and to leave arguments and earlier results alone)",
     "argument representations explored: float64 ndarrays that are C-ordered, Fortran-ordered, strided views, negative-stride views, read-only, or C-contiguous windows of a larger buffer; (3,3n) vector derivatives also as three separate component arrays; per-atom arrays of int / float / str dtype in the 1-D layouts and with one row per atom ((n,3), (n,2), (n,2,2), (n,1) str, Fortran order); recipe fields given as C / Fortran / strided arrays, flat (9,) or (1,3) shapes, lists, int32/int64 atom maps. Not generated: float32 / integer / non-native-byte-order geometries, nested lists where the code calls ndarray methods (align_vector, align_atoms, align_hessian), Hessians that are not C-contiguous (blockwise_expand asserts)",
     "call sequences are single-threaded, one process, at most 3 recipes x 5 systems x ~100 calls; state that survives longer than one sequence is exercised only in so far as later sequences (same process) are judged by the same oracle",
-    "align_system / align_mini_system are tied componentwise to alignCoords / alignAtoms of the model (no separate model function)",
+    "align_system / align_mini_system: read from the source as the tuple of component calls (src_align_system, src_align_mini_system) and additionally tied componentwise to alignCoords / alignAtoms in the call sequences; the per-atom arrays of one call may have different dtypes, the theorem is stated for one element type",
+    "source tie: only the value-level meaning of the method bodies is read (aliasing / in-place effects on arguments are not in the AST; the oracle's 'argument untouched' clauses sample them); blockwise_expand only on the aslist=False, require_aligned_blocks=True path for 2-D C-contiguous arrays; blockwise_contract on arrays with gr, lr, lc > 0 (on an empty (0,gc,lr,lc) array numpy cannot infer the -1 of the reshape and raises ValueError - so does the source-derived evaluator - while the hand model returns the empty array; a 0-atom Hessian is outside the quantifier)",
 ]
 RULE = (
     "a scenario = (recipe: integer-quaternion or float-quaternion rotation, shift, permutation of n=1..10 atoms, mirror) x (geometry with "
@@ -93,7 +121,9 @@ RULE = (
     "negative strides, read-only, window of a larger buffer, three separate rows), may refill and reuse the buffer of an earlier call, and its result is either held "
     "untouched or overwritten by the caller. Per seed 4 enumerated sequences (mirror off/on x dyadic/general) call every method in every layout it accepts twice, "
     "rotating over 4 systems and 2 recipes, all results held. All clauses are evaluated only after the last call on what the caller then holds; a failing sequence is "
-    "shrunk (ddmin over the calls, then layouts/reuse/overwrite relaxed) and the replay carries both the short and the generated sequence."
+    "shrunk (ddmin over the calls, then layouts/reuse/overwrite relaxed) and the replay carries both the short and the generated sequence. "
+    "Three-way: every model line of every stream (single calls, blockwise, call sequences) is sent to the driver twice - as it is (hand model) and with the prefix src| (the function regenerated "
+    "from the source on this run) - the implementation is compared with both, and the two exact answers must be identical text."
 )
 LEVEL_TEXT = (
     "proof: all algebraic clauses (affine map, J orthogonal action, pairing and Hessian bilinear form preserved, blocking lossless, same atom map, "
@@ -102,13 +132,17 @@ LEVEL_TEXT = (
     "calculus bridge is proved: for EVERY energy pair with E'(align y) = E(y) near x that is (twice) differentiable, the gradient / Hessian arrays at the aligned "
     "geometry equal align_gradient / align_hessian of those at x (mirror on and off), likewise the nuclear derivatives of every equivariant vector field (mirror off); "
     "specialised, with the invariance hypothesis discharged, to all C^2 functions of the interatomic distances, all pair potentials with C^2 pair functions and "
-    "(no analytic hypothesis left) the Coulomb + harmonic energies at non-coincident geometries. partial: the model is tied to the code by sampling (differential correspondence), and the theorems speak about exact real "
+    "(no analytic hypothesis left) the Coulomb + harmonic energies at non-coincident geometries. The model is tied to the code by a translator: the bodies of all eight align_* methods "
+    "and of blockwise_expand / blockwise_contract are re-read from the source on every run into a small array-expression AST whose evaluation is PROVED equal to the hand model for every size, recipe and "
+    "input (Props/C13Src.lean), so all of the above holds of the functions read from the source (headline theorems restated over them), and every case line is run three ways (implementation, hand model, "
+    "source-derived). partial: what the AST constructors mean (numpy's index-level semantics as written in Model/MillAst.lean) and the translator's reading of statements are trusted and only sampled by the "
+    "differential run, and the theorems speak about exact real "
     "arithmetic, not about floating-point rounding. Outside the model (sampled by the oracle only, no theorem): that the Python methods are functions of the VALUES of "
     "their arguments - independent of memory layout, of what was called before, of which recipe objects exist - and that they neither write to their arguments nor "
     "to arrays they returned earlier; the Lean model is a pure function of values, so these are exactly the hypotheses under which the theorems transfer to a program "
     "that makes more than one call."
 )
-TECHNIQUE = "Lean 4 proof over a generic commutative ring of a core-Lean model + Lean 4/Mathlib proof over the reals (Frechet derivative) of the covariance of every invariant energy + exact-rational differential correspondence + analytic-energy oracle"
+TECHNIQUE = "source-to-AST translator (Python ast -> Lean) with a Lean 4 proof that the regenerated ASTs evaluate to the hand model + Lean 4 proof over a generic commutative ring of a core-Lean model + Lean 4/Mathlib proof over the reals (Frechet derivative) of the covariance of every invariant energy + exact-rational differential correspondence + analytic-energy oracle"
 
 TOL = 1e-11  # model (exact) vs implementation (float), times the scale of the operands
 OTOL = 2e-9  # oracle: float analytic derivatives on both sides, times (1 + max|reference|)
@@ -417,6 +451,18 @@ def impl_mill(s):
     lines["atoms"] = "atoms|" + " ".join(str(int(i)) for i in s["map"]) + "|" + " ".join(str(int(a)) for a in s["atoms"])
     scales["atoms"] = 0.0
     return mill, x, E, (mu, dmu), res, lines, scales
+
+
+def compare3(out: Outcome, s, op, impl, model_line, src_line, scale, exact):
+    """three-way: implementation vs hand model, implementation vs source-derived function, hand model vs source-derived (exact text)"""
+    compare(out, s, op, impl, model_line, scale, exact)
+    if src_line is None:
+        return
+    out.count("three_way_lines")
+    compare(out, s, op + ":source-derived", impl, src_line, scale, exact)
+    if model_line is not None and src_line != model_line:
+        out.mismatches.append(Finding("mismatch:source-derived-vs-hand-model:" + op, case_of(s), observed=src_line[:200], expected=model_line[:200],
+                                      detail="the function regenerated from the source and the hand model of Model/Mill.lean give different exact answers on this line"))
 
 
 def compare(out: Outcome, s, op, impl, model_line, scale, exact):
@@ -1150,17 +1196,17 @@ def shrink_seq(s, kind):
     return dict(s, calls=calls)
 
 
-def process_seq(ctx, out: Outcome, s, phys, recs, labelled, model_lines):
+def process_seq(ctx, out: Outcome, s, phys, recs, labelled, model_lines, src_lines):
     out.evaluations += 1
     exact = bool(s.get("dyadic"))
-    for (lab, (line, rec, pi, scale)), ml in zip(labelled.items(), model_lines):
+    for (lab, (line, rec, pi, scale)), ml, sl in zip(labelled.items(), model_lines, src_lines):
         out.count("op:seq:" + rec["call"]["op"])
         if rec["err"] is not None:
             impl = ("err", rec["err"])
         else:
             impl = rec["copies"][pi]
             impl = impl if impl.dtype.kind in "iu" else np.asarray(impl, dtype=float)
-        compare(out, s, lab, impl, ml, scale, exact)
+        compare3(out, s, lab, impl, ml, sl, scale, exact)
     found = oracle_seq(s, phys, recs)
     found.sort(key=lambda f: f.kind == "oracle:call_context_dependence")  # stable: the clauses the statement names come first
     if found:
@@ -1195,6 +1241,24 @@ def process_seq(ctx, out: Outcome, s, phys, recs, labelled, model_lines):
                     "recipes": [{k: m[k] for k in ("n", "map", "mirror", "rot_form", "shift_form", "map_form")} for m in s["mills"]]}, limit=8)
 
 
+def run_both(ctx, lines):
+    """the same lines through the driver as they are (hand model) and prefixed with src| (source-derived), in two driver processes side by side"""
+    import time
+    from concurrent.futures import ThreadPoolExecutor
+
+    t0 = time.time()
+    with ThreadPoolExecutor(2) as ex:
+        b0 = getattr(ctx, "_batch", 0)
+        fa = ex.submit(ctx.run_model, DRIVER, lines)
+        # run_model numbers its input files with a counter on ctx: start the second call only after the first has taken its number
+        while getattr(ctx, "_batch", 0) == b0 and not fa.done() and time.time() - t0 < 60:
+            time.sleep(0.005)
+        fb = ex.submit(ctx.run_model, DRIVER, ["src|" + l for l in lines])
+        res = fa.result(), fb.result()
+    ctx._c13_driver_wall = getattr(ctx, "_c13_driver_wall", 0.0) + (time.time() - t0)
+    return res
+
+
 def process(ctx, out: Outcome, scenarios):
     """run implementation + model + oracle on a batch of scenarios"""
     prepared = []
@@ -1213,20 +1277,22 @@ def process(ctx, out: Outcome, scenarios):
             prepared.append((s, (mill, x, E, fld), res, lines, scales))
         all_lines.extend(lines.values())
     model = [None] * len(all_lines)
+    src = [None] * len(all_lines)
     if ctx.model_available:
-        model = ctx.run_model(DRIVER, all_lines)
+        # every line twice: as it is (hand model) and prefixed with `src|` (the function regenerated from the source)
+        model, src = run_both(ctx, all_lines)
     k = 0
     for s, aux, res, lines, scales in prepared:
         if s["type"] == "seq":
-            process_seq(ctx, out, s, aux[0], aux[1], aux[2], model[k : k + len(lines)])
+            process_seq(ctx, out, s, aux[0], aux[1], aux[2], model[k : k + len(lines)], src[k : k + len(lines)])
             k += len(lines)
             continue
         out.evaluations += 1
         for op in lines:
-            ml = model[k]
+            ml, sl = model[k], src[k]
             k += 1
             out.count("op:" + op)
-            compare(out, s, op, res[op], ml, scales[op] if scales else 1.0, exact=(s["type"] == "blk" or s.get("dyadic", False)))
+            compare3(out, s, op, res[op], ml, sl, scales[op] if scales else 1.0, exact=(s["type"] == "blk" or s.get("dyadic", False)))
         if s["type"] == "blk":
             oracle_blk(out, s, aux[0], aux[1], res)
             out.count("blk:%dx%d" % (s["dims"][2], s["dims"][3]))
@@ -1274,6 +1340,9 @@ def run(ctx: Ctx) -> Outcome:
     for i in range(0, len(scenarios), B):
         process(ctx, out, scenarios[i : i + B])
     out.exhaustive = False
+    out.notes.append("driver wall time (hand model and source-derived evaluation side by side): %.1f s" % getattr(ctx, "_c13_driver_wall", 0.0))
+    out.notes.append("three-way: every case line is evaluated by the implementation, by the hand model and by the function regenerated from the source (driver prefix src|); "
+                     "hand model and source-derived answers must be textually identical (exact rationals)")
     out.notes.append(f"model-vs-implementation tolerance {TOL:g} * operand scale (0 for dyadic scenarios and blockwise); oracle tolerance {OTOL:g} * (1+max|ref|)")
     return out
 
